@@ -113,12 +113,21 @@ func c07PkgP(g *symir.Gen) *ast.Schema {
 	}
 	p.AddObject(ast.NewObject("p", "Foo", ast.NewStruct(ast.NewStructField("a", t))))
 	c06Structs(p)
+	if v.Bool("pcollides") {
+		// an object of p that carries the name the chains generate for an inline struct of q
+		p.AddObject(ast.NewObject("p", "QOtherZ", ast.NewStruct(ast.NewStructField("unrelated", ast.String()))))
+	}
 	return p
 }
 
 func c07PkgQ() *ast.Schema {
 	q := ast.NewSchema("q", ast.SchemaMeta{})
-	q.AddObject(ast.NewObject("q", "Other", ast.NewStruct(ast.NewStructField("x", ast.String()), ast.NewStructField("y", ast.NewScalar(ast.KindInt64), ast.Required()))))
+	fields := []ast.StructField{ast.NewStructField("x", ast.String()), ast.NewStructField("y", ast.NewScalar(ast.KindInt64), ast.Required())}
+	if v.Bool("qinline") {
+		// an inline struct: the chains name it after package, object and field (QOtherZ)
+		fields = append(fields, ast.NewStructField("z", ast.NewStruct(ast.NewStructField("n", ast.String()))))
+	}
+	q.AddObject(ast.NewObject("q", "Other", ast.NewStruct(fields...)))
 	return q
 }
 
@@ -273,3 +282,76 @@ func VerifC05ChainJavaStructUnion()       { c05ChainFamily("java", 1) }
 func VerifC05ChainPHPStructUnion()        { c05ChainFamily("php", 1) }
 func VerifC05ChainPythonStructUnion()     { c05ChainFamily("python", 1) }
 func VerifC05ChainTypeScriptStructUnion() { c05ChainFamily("typescript", 1) }
+
+// ---------------------------------------------------------------- the same union used several times; a union as an `allOf` branch
+
+// c06UnionTwiceRun: the chains name the object they create for a union after its branches (StringOrBool):
+// the second and later uses of the same union take another path through DisjunctionToType than the first.
+func c06UnionTwiceRun(lang string) {
+	mk := func() ast.Type {
+		if v.Bool("refs") {
+			return ast.NewDisjunction(ast.Types{ast.NewRef("p", "Bar"), ast.NewRef("p", "Baz")})
+		}
+		return ast.NewDisjunction(ast.Types{ast.String(), ast.NewScalar(ast.KindBool)})
+	}
+	first := ast.NewStructField("first", mk())
+	first.Required = v.Bool("firstrequired")
+	second := ast.NewStructField("second", mk())
+	second.Required = v.Bool("secondrequired")
+	second.Type.Nullable = v.Bool("secondnullable")
+	third := ast.NewStructField("third", mk())
+	third.Required = v.Bool("thirdrequired")
+	p := ast.NewSchema("p", ast.SchemaMeta{})
+	p.AddObject(ast.NewObject("p", "Foo", ast.NewStruct(first, second)))
+	p.AddObject(ast.NewObject("p", "Other", ast.NewStruct(third)))
+	c06Structs(p)
+	v.Observe(p)
+	out, err := chainOf(lang).Process(ast.Schemas{p})
+	if err != nil {
+		v.Reach("chain returned an error")
+		return
+	}
+	v.Observe(out)
+	nfSchemas(out, nfByLang[lang])
+}
+
+func VerifC06GoUnionTwice()     { c06UnionTwiceRun("go") }
+func VerifC06JavaUnionTwice()   { c06UnionTwiceRun("java") }
+func VerifC06PHPUnionTwice()    { c06UnionTwiceRun("php") }
+func VerifC06PythonUnionTwice() { c06UnionTwiceRun("python") }
+
+// c06IntersectionUnionRun: a union sitting directly as a branch of an `allOf` composition
+// (`Bar & (A | B)`, JSON Schema `allOf: [{$ref}, {oneOf: ...}]`), or inside an inline struct branch.
+func c06IntersectionUnionRun(lang string) {
+	var u ast.Type
+	if v.Bool("refs") {
+		u = ast.NewDisjunction(ast.Types{ast.NewRef("p", "Bar"), ast.NewRef("p", "Baz")})
+	} else {
+		u = ast.NewDisjunction(ast.Types{ast.String(), ast.NewScalar(ast.KindBool)})
+	}
+	var second ast.Type
+	if v.Choose(2) == 0 {
+		second = u
+	} else {
+		second = ast.NewStruct(ast.NewStructField("value", u, ast.Required()))
+	}
+	inter := ast.NewIntersection([]ast.Type{ast.NewRef("p", "Bar"), second})
+	p := ast.NewSchema("p", ast.SchemaMeta{})
+	if v.Choose(2) == 0 {
+		p.AddObject(ast.NewObject("p", "Foo", inter))
+	} else {
+		p.AddObject(ast.NewObject("p", "Foo", ast.NewStruct(ast.NewStructField("payload", inter, ast.Required()))))
+	}
+	c06Structs(p)
+	v.Observe(p)
+	out, err := chainOf(lang).Process(ast.Schemas{p})
+	if err != nil {
+		v.Reach("chain returned an error")
+		return
+	}
+	v.Observe(out)
+	nfSchemas(out, nfByLang[lang])
+}
+
+func VerifC06GoIntersectionUnion()   { c06IntersectionUnionRun("go") }
+func VerifC06JavaIntersectionUnion() { c06IntersectionUnionRun("java") }
